@@ -422,6 +422,24 @@ def _ret_stmt(ret, lang):
     return "%s; __builtin_memset((void*)&verif_r, 0, sizeof verif_r); return verif_r;" % cdecl(strip_cv(ret), "verif_r", lang)
 
 
+def expanded_key(t, names=None):
+    """key() with typedefs expanded (down to records / enums / function types); typedef names met are collected."""
+    if isinstance(t, Typedef):
+        if names is not None:
+            names.append(t.name)
+        return expanded_key(t.to, names)
+    if isinstance(t, Pointer):
+        return "ptr(%s)" % expanded_key(t.to, names)
+    if isinstance(t, Qualified):
+        return qual_key(expanded_key(t.to, names), t.const, t.volatile)
+    if isinstance(t, Array):
+        k = expanded_key(t.elem, names)
+        for d in reversed(t.dims):
+            k = "array[%s](%s)" % (d if d is not None else "", k)
+        return k
+    return t.key()
+
+
 def strip_cv(t):
     while isinstance(t, Qualified):
         t = t.to
@@ -819,7 +837,8 @@ class Gen(object):
         if isinstance(rt, Record) and (rt.opaque or getattr(rt, "flex", False)):
             return Pointer(t)
         if isinstance(rt, Array):
-            return Pointer(Builtin("int")) if ret else t
+            # array parameters are adjusted to pointers by the language (compiler-defined DWARF): never generated
+            return Pointer(Builtin("int")) if ret else Pointer(t)
         if isinstance(rt, FuncType):
             return Pointer(t)
         return t
@@ -830,6 +849,11 @@ class Gen(object):
             t = self.scalar()
         if self.r.random() < 0.15 and _is_scalar(t):
             t = Qualified(t, const=True)
+        elif self.r.random() < 0.12:
+            arr_tds = [x for x in self.p.types if isinstance(x, Typedef) and isinstance(resolve(x), Array)
+                       and not self._incomplete(x)]
+            if arr_tds:
+                t = Qualified(self.r.choice(arr_tds), const=True)
         v = Variable(self.name("v"), t, tu=self.r.randrange(self.p.ntus))
         v.init_seed = self.r.randint(0, 1000)
         self.p.variables.append(v)
